@@ -146,12 +146,38 @@ def _unwiden(scrut, ty):
     return scrut, ty
 
 
+def _unshift(scrut, ty, arms):
+    """a case split on `x + k` (unsigned, k constant; the checked addition has already succeeded) is the split on x with
+    every range moved down by k; the values of x whose sum would not fit go to the last arm (they never reach the split)"""
+    while (isinstance(scrut, tuple) and scrut and scrut[0] == "bin" and len(scrut) == 5 and scrut[1] == "Add" and scrut[4] == ty
+           and ty in INT_TYS and ty_range(ty)[0] == 0):
+        if is_c(scrut[2]) and isinstance(scrut[2][1], int) and scrut[2][1] >= 0:
+            k, x = scrut[2][1], scrut[3]
+        elif is_c(scrut[3]) and isinstance(scrut[3][1], int) and scrut[3][1] >= 0:
+            k, x = scrut[3][1], scrut[2]
+        else:
+            break
+        hi = ty_range(ty)[1]
+        if k == 0 or k > hi:
+            break
+        dom = ((0, hi - k),)
+        arms = [(rs_inter(tuple((lo - k, h - k) for lo, h in rs_norm(rs)), dom), t) for rs, t in arms]
+        arms = [(rs, t) for rs, t in arms if rs]
+        if not arms:
+            break
+        arms[-1] = (rs_norm(arms[-1][0] + ((hi - k + 1, hi),)), arms[-1][1])
+        arms = tuple(arms)
+        scrut = x
+    return scrut, arms
+
+
 def mk_cases(scrut, ty, arms):
     s2, t2 = _unwiden(scrut, ty)
     if t2 != ty:
         dom = (ty_range(t2),)
         arms = tuple((rs_inter(rs_norm(rs), dom), t) for rs, t in arms)
         scrut, ty = s2, t2
+    scrut, arms = _unshift(scrut, ty, arms)
     # flatten nested cases on the same scrutinee
     flat = []
     for rs, t in arms:
@@ -194,6 +220,10 @@ def mk_in(scrut, ty, rs):
     if t2 != ty:
         rs = rs_inter(rs, (ty_range(t2),))
         scrut, ty = s2, t2
+    if isinstance(scrut, tuple) and scrut and scrut[0] == "bin" and len(scrut) == 5 and scrut[1] == "Add":
+        c = mk_cases(scrut, ty, ((rs, TRUE), (rs_compl(rs, ty), FALSE)))
+        if not (c[0] == "in" and c[1] == scrut):
+            return c
     lo, hi = ty_range(ty)
     if not rs:
         return FALSE
@@ -1180,6 +1210,13 @@ class Evaluator:
                 env[args[0][1]] = adt(cur[1], cur[2], (("start", ite(c, binop("Add", lo, C(1, ty), ty), lo)), ("end", hi)))
                 return ite(c, some(lo), NONE)
             raise Undecided("Range::next on a value that is not a Range aggregate")
+        if len(args) == 2 and args[0][0] == "mref" and _re.search(r"core::ops::arith::(Add|Sub|Mul|Div)Assign(<.*>)?>::(add|sub|mul|div)_assign$", name):
+            # `x op= y` through the operator trait is `x = x op y`
+            cur = self._mref_get(env, args[0])
+            nm = _re.sub(r"(Add|Sub|Mul|Div)Assign", lambda m: m.group(1), name)
+            nm = _re.sub(r"::(add|sub|mul|div)_assign$", lambda m: "::" + m.group(1), nm)
+            self._mref_set(env, args[0], ("call", nm, (cur, args[1])))
+            return UNIT
         if any(a[0] == "mref" for a in args if isinstance(a, tuple) and a):
             m0 = self.models.get(name) or self.models.get(declared)
             if m0 is None:
@@ -1614,7 +1651,7 @@ def _find_array(t):
     if isinstance(t, tuple) and t:
         if t[0] == "array":
             return t
-        for x in t[1:]:
+        for x in (t if isinstance(t[0], tuple) else t[1:]):
             if isinstance(x, tuple):
                 r = _find_array(x)
                 if r is not None:
